@@ -9,6 +9,7 @@ import (
 	"fmt"
 	"io"
 	"log"
+	"os"
 	"runtime"
 	"sort"
 	"strconv"
@@ -109,6 +110,7 @@ type peer struct {
 	welcomed  bool   // a WELCOME was received
 	silent    bool   // handshake peer that never sends anything
 	hs        bool   // attached by a handshake step (hello)
+	wire      bool   // network transport (rawsocket / websocket)
 	deaf      bool   // hung up during the handshake: nothing is observed any more
 	notify    chan struct{} // signalled by the reader on every received message
 	challenge string // the challenge the router issued to this peer
@@ -266,6 +268,16 @@ func (x *Exec) RunScenario(sc *Scenario) {
 	close(x.quit)
 	rt.Close()
 	synctest.Wait()
+	// the harness ends of network transports have goroutines of their own
+	for _, name := range x.order {
+		if p := x.peers[name]; p.wire && !p.dropped {
+			func() {
+				defer func() { _ = recover() }()
+				p.cli.Close()
+			}()
+		}
+	}
+	synctest.Wait()
 }
 
 func (x *Exec) realmConfig(rc *realmCtx) *router.RealmConfig {
@@ -422,6 +434,22 @@ func normInput(in Input) Input {
 
 func (x *Exec) newPeer(name string, j Join) *peer {
 	cli, rtr := transport.LinkedPeersQSize(j.Q)
+	if !j.Local && j.Tr != "" {
+		q := j.Q
+		if q == 0 {
+			q = 64
+		}
+		ser := j.Tr[3:]
+		if strings.HasPrefix(j.Tr, "rs-") {
+			c, r, err := rawsocketPair(ser, q)
+			if err != nil {
+				panic("harness: rawsocket handshake: " + err.Error())
+			}
+			cli, rtr = c, r
+		} else {
+			cli, rtr = websocketPair(ser, q)
+		}
+	}
 	p := &peer{
 		name: name, cli: cli,
 		sendq:   make(chan wamp.Message, 1024),
@@ -435,11 +463,12 @@ func (x *Exec) newPeer(name string, j Join) *peer {
 		callReq: map[wamp.ID]string{},
 	}
 	p.realm = x.idx
+	p.wire = !j.Local && j.Tr != ""
 	p.tainted = j.Color == "tainted"
 	x.peers[name] = p
 	x.order = append(x.order, name)
 	var rp wamp.Peer = rtr
-	if !j.Local {
+	if !j.Local && j.Tr == "" {
 		rp = remotePeer{rtr}
 	}
 	if j.Local {
@@ -1159,6 +1188,15 @@ func (x *Exec) goroutineExcess() int {
 	b := x.routerGoroutines()
 	ref.Close()
 	synctest.Wait()
+	if a-(b-a) != 0 && os.Getenv("VERIF_DEBUG") != "" {
+		buf := make([]byte, 1<<20)
+		buf = buf[:runtime.Stack(buf, true)]
+		for _, g := range bytes.Split(buf, []byte("\n\n")) {
+			if bytes.Contains(g, []byte("nexus/v3/router.")) || bytes.Contains(g, []byte("nexus/v3/transport.")) {
+				fmt.Fprintf(os.Stderr, "LEFT: %s\n\n", g)
+			}
+		}
+	}
 	return a - (b - a)
 }
 
